@@ -4,13 +4,16 @@ Line-protocol driver for C14: per line
    "sources":[[[fname,[i,j…]]…]…]}
 answer {"renders":[the string that is hashed, per node],"inputs":[[input names] per node],
         "labels":[[label per source node] per from_source call]}
-pyval: number (int) | string | {"f":repr} (float) | true/false | null | [ … ] (list) | {"t":[ … ]} (tuple)
+pyval: number (int) | string | {"f":repr} (float) | true/false | null | [ … ] (list) | {"t":[ … ]} (tuple) | {"d":[[key,pyval]…]} (dict)
 
 optional "heapops": one entry per `transform` whose func hands back an existing action (or the receiver):
   {"heap":[cell…],"a":i,"kind":"lookup"|"self","targets":[cell index per parameter],"dim":name|[name,[labels]],"axis":n}
   cell = {"dims":[[name,[labels],indexed]…],"scalars":[[name,label]…],"nodes":[node-object id per position, row-major]}
-answer "heapops": [{"heap":[the cells that existed before, after the call],"result":cell,"cell":index} | {"err":class}]
-(`Names.transformH .always` — the heap model of `Action.transform`).
+  | {"heap":[cell…],"a":i,"kind":"combine","method":"stack"|"concat","d":dim,"keep":bool}   (dimension of size 1)
+  | {"heap":[cell…],"a":i,"kind":"alias"}                                                  (select / iselect without criteria)
+answer "heapops": [{"heap":[the cells that existed before, after the call],"result":cell,"cell":index,
+                    "alias_of":index of the existing cell that IS the result | null} | {"err":class}]
+(`Names.transformH .always`, `Names.combineH`, `Names.selectH` — the heap model).
 -/
 import EkwVerif.Drive.Util
 import EkwVerif.Model.Names
@@ -30,7 +33,11 @@ partial def pyOfJson (j : Json) : PyVal :=
     | .ok (.str r) => .flt r.toList
     | _ => match j.getObjVal? "t" with
       | .ok (.arr a) => .tuple (a.toList.map pyOfJson)
-      | _ => .none
+      | _ => match j.getObjVal? "d" with
+        | .ok (.arr a) => .dict (a.toList.map (fun p => match p with
+            | .arr #[k, v] => ((match k with | .str s => s.toList | _ => []), pyOfJson v)
+            | _ => ([], .none)))
+        | _ => .none
 
 def strOf (s : Str) : String := String.ofList s
 
@@ -109,13 +116,20 @@ def dimArgOf (j : Json) : DimArg :=
 def heapOp (j : Json) : Json :=
   let h : Heap := (getArr j "heap").map cellOfJson
   let targets := (getArr j "targets").map asNat
-  let f : TFunc Nat := if getStr j "kind" == "self" then .self else .lookup (fun p => targets.getD p h.length)
-  let params := List.range targets.length
-  match transformH .always h (getNat j "a") f params (dimArgOf ((j.getObjVal? "dim").toOption.getD Json.null)) (getNat j "axis") with
+  let a := getNat j "a"
+  let res : Except Err (Heap × Nat) :=
+    match getStr j "kind" with
+    | "combine" => combineH h (getStr j "method") [] a (getStr j "d") 0 (getBool j "keep")
+    | "alias" => selectH h a none false
+    | kind =>
+      let f : TFunc Nat := if kind == "self" then .self else .lookup (fun p => targets.getD p h.length)
+      transformH .always h a f (List.range targets.length) (dimArgOf ((j.getObjVal? "dim").toOption.getD Json.null)) (getNat j "axis")
+  match res with
   | .error e => Json.mkObj [("err", Json.str (errStr e))]
   | .ok (h', r) =>
     Json.mkObj [("heap", Json.arr ((h'.take h.length).map cellToJson).toArray),
-                ("result", cellToJson (h'.cell r)), ("cell", toJson r)]
+                ("result", cellToJson (h'.cell r)), ("cell", toJson r),
+                ("alias_of", if r < h.length then toJson r else Json.null)]
 
 def run (j : Json) : Json :=
   let outs := (getArr j "nodes").map nodeOut
